@@ -168,6 +168,50 @@ def _check_z3_old(smt2, timeout_s):
     return r, time.time() - t0
 
 
+def _race(smt2, z3_timeout_s, cvc5_timeout_s):
+    """Run z3 (CLI, e-matching off) and cvc5 concurrently on the same SMT-LIB text; first sat/unsat wins."""
+    tmpdir = os.environ.get("PYVC_TMP", None)
+    with tempfile.NamedTemporaryFile("w", suffix=".smt2", delete=False, dir=tmpdir) as f:
+        f.write(smt2)
+        p_z3 = f.name
+    with tempfile.NamedTemporaryFile("w", suffix=".smt2", delete=False, dir=tmpdir) as f:
+        f.write("(set-logic ALL)\n" + smt2.replace("(check-sat)", "") + "\n(check-sat)\n")
+        p_cvc = f.name
+    t0 = time.time()
+    procs = {}
+    try:
+        procs["z3-5.1-cli-noematch"] = subprocess.Popen(["z3-new", f"-T:{z3_timeout_s}", "smt.ematching=false", p_z3], stdout=subprocess.PIPE, stderr=subprocess.DEVNULL, text=True)
+        procs["cvc5-1.0.3"] = subprocess.Popen([CVC5_BIN, "--strings-exp", f"--tlimit={cvc5_timeout_s * 1000}", p_cvc], stdout=subprocess.PIPE, stderr=subprocess.DEVNULL, text=True)
+    except FileNotFoundError:
+        pass
+    detail, final = {}, "unknown"
+    deadline = t0 + max(z3_timeout_s, cvc5_timeout_s) + 5
+    pending = dict(procs)
+    while pending and time.time() < deadline and final == "unknown":
+        for name, p in list(pending.items()):
+            if p.poll() is not None:
+                out = (p.stdout.read() or "").strip().splitlines()
+                r = out[0] if out and out[0] in ("sat", "unsat") else "unknown"
+                if r == "sat" and name.startswith("z3"):
+                    r = _validated(smt2, r)
+                detail[name] = dict(result=r, seconds=round(time.time() - t0, 3))
+                del pending[name]
+                if r in ("sat", "unsat"):
+                    final = r
+        if pending and final == "unknown":
+            time.sleep(0.02)
+    for name, p in pending.items():
+        p.kill()
+        p.wait()
+        detail[name] = dict(result="unknown", seconds=round(time.time() - t0, 3), note="stopped: the other back end answered" if final != "unknown" else "timeout")
+    for pth in (p_z3, p_cvc):
+        try:
+            os.unlink(pth)
+        except OSError:
+            pass
+    return final, detail
+
+
 def solve_retry(job):
     """Second chance for an obligation the first portfolio pass left undecided (run with few processes, long budgets,
     several seeds): verdicts must not flip to 'undecided' merely because the machine was busy."""
@@ -218,16 +262,16 @@ def solve_one(job):
     if r == "sat":
         res["model"] = model
     if final == "unknown":
-        # pure MBQI (e-matching off) decides the set/relation queries on which e-matching loops (closure axioms)
-        r5, dt5 = _check_z3_cli_model(smt2, 25)
-        note("z3-5.1-cli-noematch", r5, dt5)
-        final = r5
-    if final == "unknown" or (thorough and final == "unsat"):
-        r2, dt2 = _check_cvc5(smt2, 10 if not thorough else CVC5_TIMEOUT_S)
+        # race pure MBQI (z3, e-matching off: decides the set/relation queries on which e-matching loops) against cvc5
+        # (decides most string queries); the first definite answer wins
+        rr, detail = _race(smt2, 25, 10 if not thorough else CVC5_TIMEOUT_S)
+        for k, v in detail.items():
+            res["backends"][k] = v
+        final = rr
+    elif thorough and final == "unsat":
+        r2, dt2 = _check_cvc5(smt2, CVC5_TIMEOUT_S)
         note("cvc5-1.0.3", r2, dt2)
-        if final == "unknown":
-            final = r2
-        elif r2 != "unknown" and r2 != final:
+        if r2 not in ("unknown", final):
             final = "conflict"
     if final == "unknown":
         r6, dt6, model, reason = _check_z3(smt2, Z3_TIMEOUT_MS * (3 if thorough else 2), seed + 1)
